@@ -184,7 +184,11 @@ def generate(rng, index, tier):
     horizon = span + 7.0
     if wishlist and interval and wishlist_timeout == -1 and rng.random() < 0.5:
         horizon = max(horizon, interval + 2.0)
+    relogin = {}
+    if rng.random() < 0.15:
+        relogin = {'relogin': round(rng.uniform(0.2, span), 3)}
     return {
+        **relogin,
         'slow_close': rng.choice([0.05, 0.5, 2.0]) if rng.random() < 0.25 else 0,
         'slow_removed': rng.choice([0.05, 0.5, 2.0]) if rng.random() < 0.2 else 0,
         'slow_sent': rng.choice([0.05, 0.5, 1.5]) if rng.random() < 0.15 else 0,
@@ -403,6 +407,20 @@ def _directed():
         {'id': 2, 'op': 'settings', 'when': ['t0', 1.0], 'request_timeout': 0},
         {'id': 3, 'op': 'search', 'kind': 'net', 'when': ['t0', 1.5]},
         _reply(4, ['req', 1], ['t0', 3.0]), _reply(5, ['req', 3], ['t0', 5.0], 1)]))
+    # the server connection is lost while a request is live, the client logs in again and asks again: both requests are
+    # live (distinct tickets), each reply goes to its own request, the first request's deadline is its own
+    for settings in (S0, S2, {'request_timeout': 5, 'wishlist_timeout': -1, 'store': True}):
+        for kind in ('net', 'user'):
+            out.append(dict(base, settings=settings, relogin=1.0, horizon=10.0, ops=[
+                {'id': 1, 'op': 'search', 'kind': kind, 'when': ['t0', 0.5]},
+                {'id': 2, 'op': 'search', 'kind': kind, 'when': ['t0', 3.5]},
+                _reply(3, ['req', 1], ['t0', 4.0]), _reply(4, ['req', 2], ['t0', 4.2], 1),
+                _reply(5, ['req', 2], ['deadline', ['req', 2], -0.2])]))
+    out.append(dict(base, wishlist=['w0'], interval=5, relogin=2.0, horizon=12.0,
+                    settings={'request_timeout': 0, 'wishlist_timeout': -1, 'store': True}, ops=[
+        {'id': 1, 'op': 'search', 'kind': 'net', 'when': ['t0', 0.5]},
+        _reply(2, ['wish', 0, 'w0'], ['t0', 4.5]), _reply(3, ['wish', 1, 'w0'], ['sent', ['wish', 1, 'w0'], 0.5], 1),
+        _reply(4, ['req', 1], ['t0', 6.0])]))
     return out
 
 
@@ -567,12 +585,15 @@ def _run_search(world: World, plan):
     server = world.add_server(cfg)
     peers = [world.add_peer(name) for name in PEERS[:max(1, min(2, plan.get('peers', 1)))]]
     st = plan.get('settings', {})
-    alice = world.add_client('alice', overrides={'searches': {
+    overrides = {'searches': {
         'send': {'store_results': bool(st.get('store', True)),
                  'request_timeout': st.get('request_timeout', 0),
                  'wishlist_request_timeout': st.get('wishlist_timeout', -1)},
         'wishlist': [{'query': q, 'enabled': True} for q in plan.get('wishlist', [])],
-    }})
+    }}
+    if plan.get('relogin') is not None:
+        overrides['network'] = {'server': {'reconnect': {'auto': True, 'timeout': 1}}}
+    alice = world.add_client('alice', overrides=overrides)
     client = alice.client
     ops = plan.get('ops', [])
     precise = bool(plan.get('precise'))
@@ -817,6 +838,16 @@ def _run_search(world: World, plan):
             alice.settings.searches.wishlist = [WishlistSettingEntry(query=q, enabled=True) for q in op['wishlist']]
         world.trace('settings', op['id'])
 
+    async def do_relogin():
+        # the server connection is lost and the client logs in again by itself (auto-reconnect): requests made in
+        # the first session stay registered, their timers keep running, and requests of the second session are
+        # live next to them
+        await _until(loop, t0[0] + float(plan['relogin']))
+        for sess in server.sessions:
+            if not sess.closed and getattr(sess, 'username', None) == 'alice':
+                world.net.fired['server_reset_then_relogin'] += 1
+                sess.abort()
+
     runners = {'search': do_search, 'remove': do_remove, 'reply': do_reply, 'interval': do_interval,
                'settings': do_settings}
     t_end = [None]
@@ -835,6 +866,8 @@ def _run_search(world: World, plan):
                 tasks.append(peers[int(op.get('peer', 0)) % len(peers)].spawn(fn(op)))
             else:
                 tasks.append(asyncio.ensure_future(fn(op)))
+        if plan.get('relogin') is not None:
+            tasks.append(asyncio.ensure_future(do_relogin()))
         await _until(loop, t0[0] + float(plan.get('horizon', 8.0)))
         for task in tasks:
             if not task.done():
@@ -876,6 +909,13 @@ def _run_search(world: World, plan):
         k = nth.get(rec['query'], 0)
         nth[rec['query']] = k + 1
         seen = wire.get(rec['query'], [])
+        if plan.get('relogin') is not None:
+            # a request made while the server connection is down is registered and reported although its frame never
+            # reaches the server: frames and requests of one query are then compared as sets, and only when none is lost
+            mine = [r['ticket'] for r in rec_list if r['query'] == rec['query']]
+            if len(seen) >= len(mine) and rec['ticket'] not in seen:
+                world.violate('C18.result_iff', why='wire_ticket_differs', type=rec['type'])
+            continue
         if k < len(seen) and seen[k] != rec['ticket']:     # (a frame still in flight at the end is not judged)
             world.violate('C18.result_iff', why='wire_ticket_differs', type=rec['type'])
     check_errors(world, failed, harness_hosts=[server.host] + [p.host for p in peers])
